@@ -60,6 +60,10 @@ pub trait Scene {
     fn finish(&self, _complete: bool) -> Vec<Violation> {
         vec![]
     }
+    /// per-case data handed to the parent (e.g. outcome sets for cross-build comparison)
+    fn export(&self) -> Option<Value> {
+        None
+    }
 }
 
 pub struct Case {
@@ -229,6 +233,9 @@ fn explore_case(idx: usize, case: &Case, deadline: Option<Instant>, want_sample:
     );
     if let Some(s) = sample {
         out["sample"] = s;
+    }
+    if let Some(x) = case.scene.export() {
+        out["export"] = x;
     }
     out
 }
@@ -484,10 +491,11 @@ pub fn check_main(prop: &Property, tier: Tier) -> i32 {
         }
         new_violations += 1;
         let h = world::hash_of(&(prop.id, key.as_str()));
-        let path = format!("/verif/replays/{}-{:08x}.json", prop.id, h as u32);
+        let path = format!("/verif/replays/{}-{}{:08x}.json", prop.id, if prop.id == "C18" { format!("{}-", crate::props::c18::RUNTIME) } else { String::new() }, h as u32);
         let replay = json!({
             "property": prop.id,
             "tier": tier.name(),
+            "flavour": crate::props::c18::RUNTIME,
             "case_index": v["case_index"],
             "case_desc": v["case_desc"],
             "clause": v["clause"],
@@ -556,8 +564,17 @@ pub fn check_main(prop: &Property, tier: Tier) -> i32 {
         "wall_s": t0.elapsed().as_secs_f64(),
         "violations": new_violations,
     });
+    if let Ok(f) = std::env::var("VERIF_EXPORT_FILE") {
+        let mut m = serde_json::Map::new();
+        for r in &results {
+            if let (Some(d), Some(x)) = (r["desc"].as_str(), r.get("export")) {
+                m.insert(d.to_string(), json!({"outcomes": x, "complete": !r["wall_hit"].as_bool().unwrap_or(true), "schedules": r["schedules"]}));
+            }
+        }
+        let _ = std::fs::write(&f, serde_json::to_string(&Value::Object(m)).unwrap());
+    }
     let _ = std::fs::create_dir_all("/verif/evidence");
-    let path = format!("/verif/evidence/{}.json", prop.id);
+    let path = std::env::var("VERIF_EVIDENCE_FILE").unwrap_or_else(|_| format!("/verif/evidence/{}.json", prop.id));
     std::fs::write(&path, serde_json::to_string_pretty(&evidence).unwrap()).expect("write evidence");
     println!(
         "{} {}: cases={} schedules={} states={} transitions={} outcomes={} max_depth={} exhaustive={} caps={:?} wall={:.1}s",
